@@ -19,6 +19,7 @@ import ast
 from sa import asdl
 from sa import core
 from sa import fieldtypes
+from sa import pat
 from sa import pycfg
 from sa import trav
 
@@ -253,10 +254,13 @@ def check(model, rep, tier):
   ss = cls.methods.get('_visit_strict_statement')
   ok = ss is not None
   if ok:
-    src = [core.norm(s) for s in ss.node.body]
-    ok = src[0] == 'assert not self._pending_statements' and \
-        'results = self._consume_pending_statements()' in src and \
-        src[-1] == 'return results' and 'results.append(node)' in src
+    prm = ss.params()[0]
+    body = [x for x in ss.node.body if not (isinstance(x, ast.Expr) and
+                                            isinstance(x.value, ast.Constant))]
+    b = pat.seq(body, ['assert not self._pending_statements',
+                       '_R_ = self._consume_pending_statements()',
+                       '_R_.append(%s)' % prm, 'return _R_'])
+    ok = b is not None and core.norm(body[0]) == 'assert not self._pending_statements'
   rep.check(ok, 'ANF-BLOCKS', '%s:AnfTransformer:_visit_strict_statement' % ANF,
             'a simple statement is replaced by its extracted statements '
             'followed by itself', line=ss.node.lineno if ss else None)
